@@ -23,6 +23,18 @@ def main():
     for f in files[::step]:
         for n in range(1, len(f["lines"]) + 3):
             cases.append({"mode": "chunks", "lines": f["lines"], "fin": f["fin"], "n": n})
+    # the same files with ONE line made very long (longer than any reader buffer: 9000 .. 70000 bytes), at every position
+    longs = []
+    for k, f in enumerate(files[::(2 if run.thorough else 7)]):
+        for pos in range(len(f["lines"])):
+            ll = [list(x) for x in f["lines"]]
+            ll[pos][1] = [9000, 20000, 40000, 70000, 8193, 16385][(k + pos) % 6]
+            longs.append({"mode": "index", "lines": ll, "fin": f["fin"]})
+            if (k + pos) % 3 == 0:
+                for n in (2, 3, len(ll) + 1):
+                    longs.append({"mode": "chunks", "lines": ll, "fin": f["fin"], "n": n})
+    cases += longs
+    run.cov["long_line_cases"] = len(longs)
     for v in views:
         cases.append({"mode": "view", "n": v["n"], "a": v["a"], "b": v["b"], "ops": v["ops"]})
     obs = run_harness("slicing", cases, run.wd, hang_timeout=15)
